@@ -11,6 +11,14 @@
 #include <amgcl/adapter/crs_tuple.hpp>
 #include <amgcl/coarsening/runtime.hpp>
 #include <amgcl/relaxation/runtime.hpp>
+#include <amgcl/value_type/static_matrix.hpp>
+#include <amgcl/adapter/block_matrix.hpp>
+#include <amgcl/coarsening/aggregation.hpp>
+#include <amgcl/coarsening/smoothed_aggregation.hpp>
+#include <amgcl/relaxation/spai0.hpp>
+#include <amgcl/relaxation/ilu0.hpp>
+#include <amgcl/relaxation/gauss_seidel.hpp>
+#include <amgcl/relaxation/damped_jacobi.hpp>
 #include <boost/property_tree/ptree.hpp>
 #include <Eigen/Dense>
 #include <Eigen/Eigenvalues>
@@ -23,6 +31,8 @@ typedef std::vector<double> vec;
 namespace amgcl { namespace verif {
 struct access {
     static int nlevels(const AMG &a) { return a.levels.size(); }
+    template <class A> static int nlevels_of(const A &a) { return a.levels.size(); }
+    template <class A> static bool direct_of(const A &a) { return (bool)a.levels.back().solve; }
     static bool direct(const AMG &a) { return (bool)a.levels.back().solve; }
     static void names(const AMG &a, vr::opstream &s) {
         std::vector<int> f, u, t, A, P, R; int l = 0;
@@ -37,6 +47,8 @@ struct access {
 };
 }}
 using amgcl::verif::access;
+template <class A> static int access_levels(const A &a) { return access::nlevels_of(a); }
+template <class A> static bool access_direct(const A &a) { return access::direct_of(a); }
 
 static vr::opstream S;
 
@@ -165,6 +177,59 @@ static void obs_case(std::shared_ptr<crsd> A, const cfg &c, vr::rng &g, bool mma
     vr::emit(o.done());
 }
 
+
+// ------------------------------------------------------------------ block value types (2x2)
+typedef amgcl::static_matrix<double, 2, 2> BV;
+typedef amgcl::static_matrix<double, 2, 1> BR;
+typedef amgcl::backend::builtin<BV> BB;
+
+// A (x) I_2 + I (x) [[c,-c],[-c,c]]: SPD, diagonally dominant M-matrix with 2x2 block structure
+static std::shared_ptr<crsd> block_system(const crsd &A, double c) {
+    int n = A.nrows; std::vector<std::vector<std::pair<int,double>>> rows(2 * n);
+    for (int i = 0; i < n; ++i) for (ptrdiff_t p = A.ptr[i]; p < A.ptr[i+1]; ++p) { int j = A.col[p]; double v = A.val[p];
+        if (j == i) { rows[2*i].push_back({2*i, v + c}); rows[2*i].push_back({2*i+1, -c}); rows[2*i+1].push_back({2*i, -c}); rows[2*i+1].push_back({2*i+1, v + c}); }
+        else { rows[2*i].push_back({2*j, v}); rows[2*i+1].push_back({2*j+1, v}); } }
+    for (auto &r : rows) std::sort(r.begin(), r.end());
+    return vr::from_rows(2 * n, 2 * n, rows);
+}
+
+template <template <class> class C, template <class> class R>
+static void obs_block(const char *cname, const char *rname, std::shared_ptr<crsd> As, vr::rng &g, const cfg &c) {
+    typedef amgcl::amg<BB, C, R> BAMG;
+    auto K = block_system(*As, 0.3 + g.unit());
+    int n = K->nrows, nb = n / 2;
+    typename BAMG::params prm; prm.ncycle = c.ncycle; prm.npre = c.npre; prm.npost = c.npost; prm.pre_cycles = c.pre_cycles; prm.coarse_enough = c.ce; prm.direct_coarse = c.dc;
+    std::unique_ptr<BAMG> amg, amg4;
+    try {
+        std::vector<ptrdiff_t> ptr(K->ptr, K->ptr + n + 1), col(K->col, K->col + K->nnz); std::vector<double> val(K->val, K->val + K->nnz), val4(val);
+        for (double &v : val4) v *= 4.0;
+        amg.reset(new BAMG(amgcl::adapter::block_matrix<BV>(std::tie(n, ptr, col, val)), prm));
+        amg4.reset(new BAMG(amgcl::adapter::block_matrix<BV>(std::tie(n, ptr, col, val4)), prm));
+    } catch (const std::exception &e) { vr::obj o; o.str("e", "Exception").str("what", e.what()).str("coarsening", cname).str("relax", rname); vr::emit(o.done()); return; }
+    auto apply = [&](const BAMG &a, const vec &f) { std::vector<BR> F(nb), X(nb); for (int i = 0; i < nb; ++i) { F[i](0) = f[2*i]; F[i](1) = f[2*i+1]; X[i](0) = std::nan(""); X[i](1) = 1e300; }
+        a.apply(F, X); vec x(n); for (int i = 0; i < nb; ++i) { x[2*i] = X[i](0); x[2*i+1] = X[i](1); } return x; };
+    Eigen::MatrixXd Bm(n, n), Am = Eigen::MatrixXd::Zero(n, n);
+    for (int i = 0; i < n; ++i) for (ptrdiff_t p = K->ptr[i]; p < K->ptr[i+1]; ++p) Am(i, K->col[p]) += K->val[p];
+    vec e(n, 0.0); bool scaled = true;
+    for (int j = 0; j < n; ++j) { e[j] = 1.0; vec x = apply(*amg, e); for (int i = 0; i < n; ++i) Bm(i, j) = x[i];
+        if (j % 5 == 0) { vec y = apply(*amg4, e); for (int i = 0; i < n; ++i) if (y[i] != 0.25 * x[i]) scaled = false; } e[j] = 0.0; }
+    vec f(n), h(n), fg(n); double a = 1.5 + g.unit(), b = -0.75 - g.unit();
+    for (int i = 0; i < n; ++i) { f[i] = g.unit() - 0.5; h[i] = g.unit() - 0.5; fg[i] = a * f[i] + b * h[i]; }
+    vec xf = apply(*amg, f), xh = apply(*amg, h), xfg = apply(*amg, fg), xf2 = apply(*amg, f);
+    bool hist = std::memcmp(xf.data(), xf2.data(), n * sizeof(double)) == 0;
+    double lin = 0, sc = 0; for (int i = 0; i < n; ++i) { lin = std::max(lin, std::fabs(xfg[i] - a * xf[i] - b * xh[i])); sc = std::max(sc, std::fabs(xfg[i])); }
+    double sym = (Bm - Bm.transpose()).norm() / Bm.norm();
+    Eigen::SelfAdjointEigenSolver<Eigen::MatrixXd> es(0.5 * (Bm + Bm.transpose()), Eigen::EigenvaluesOnly);
+    double lmin = es.eigenvalues().minCoeff(), lmax = es.eigenvalues().maxCoeff();
+    double rho = Eigen::EigenSolver<Eigen::MatrixXd>(Eigen::MatrixXd::Identity(n, n) - Bm * Am, false).eigenvalues().cwiseAbs().maxCoeff();
+    cfg cc = c; cc.coarsening = cname; cc.relax = rname; cc.over_interp = 2.0;
+    vr::obj o; o.str("k", "cycobs").str("fam", "block2").i("n", n); put_cfg(o, cc, access_levels(*amg), access_direct(*amg));
+    o.b("finite", Bm.allFinite()).b("mmat", true).b("adjR", true).b("ilut", false);
+    o.i("lin", mdec(lin / std::max(sc, 1e-300))).b("hist", hist).b("scaled", scaled);
+    o.i("sym", mdec(sym)).b("posdef", lmin > 0).i("lminrel", mdec(lmin / lmax)).i("rho", (long long)std::min(1e9, std::floor(rho * 1048576.0)));
+    vr::emit(o.done());
+}
+
 int main(int argc, char **argv) {
     vr::install_terminate();
     std::string mode = argc > 1 ? argv[1] : "ops";
@@ -190,6 +255,18 @@ int main(int argc, char **argv) {
             if (r < 36) { c.coarsening = COARSENINGS[r % 4]; c.relax = RELAX[r % 9]; }
             c.ce = g.range(3, 12); if (g.coin(0.3)) c.ml = g.range(2, 3);
             obs_case(A, c, g, true, fam == 0 ? "grid" : "graph");
+        }
+        // block-valued hierarchies (2x2 static_matrix): typed compositions
+        int breps = vr::env_int("VERIF_BREPS", th ? 24 : 6);
+        for (int r = 0; r < breps; ++r) {
+            auto As = r % 2 ? real_graph(g, g.range(25, 60), 0.06, 10.0) : real_grid(g, g.range(5, 8), g.range(4, 7), 10.0);
+            cfg c = random_cfg(g, As->nrows); c.ce = g.range(2, 6); c.ncycle = 1 + r % 2; c.npost = c.npre;
+            switch (r % 4) {
+                case 0: obs_block<amgcl::coarsening::smoothed_aggregation, amgcl::relaxation::spai0>("smoothed_aggregation", "spai0", As, g, c); break;
+                case 1: obs_block<amgcl::coarsening::smoothed_aggregation, amgcl::relaxation::ilu0>("smoothed_aggregation", "ilu0", As, g, c); break;
+                case 2: c.ncycle = 2; obs_block<amgcl::coarsening::aggregation, amgcl::relaxation::damped_jacobi>("aggregation", "damped_jacobi", As, g, c); break;
+                case 3: obs_block<amgcl::coarsening::smoothed_aggregation, amgcl::relaxation::gauss_seidel>("smoothed_aggregation", "gauss_seidel", As, g, c); break;
+            }
         }
     }
     vr::obj o; o.str("e", "End"); vr::emit(o.done());
